@@ -105,10 +105,12 @@ func VForkMap() {
 }
 
 // ---------------------------------------------------------------------------
-// FMap: the arrow decides failure first (E), otherwise emits K(a) in {0,1,2}
-// values; value j of element a is G(a,j) tagged with j and the index of a.
+// FMap: the arrow decides failure first (E: no output, the error), otherwise
+// emits K(a) in {1,2} values; value j of element a is G(a,j) tagged with j and
+// the index of a. The arrow honours its context (a blocked send gives way to
+// cancellation), as the arrows of the library's own documentation do.
 
-func v9K(a int) int         { return (vrt.UF1("K", a) & 3) % 3 }
+func v9K(a int) int         { return 1 + vrt.UF1("K", a)&1 }
 func v9G(a int, j int) int { return v9tag(vrt.UF2("G", a, j)<<1|j, a) }
 
 func VForkFMap() {
@@ -119,7 +121,7 @@ func VForkFMap() {
 	var okA, okB [v9MaxN]bool
 	for i := 0; i < v9n(); i++ {
 		imgA[i], imgB[i] = v9G(xs[i], 0), v9G(xs[i], 1)
-		okA[i], okB[i] = good[i] && v9K(xs[i]) >= 1, good[i] && v9K(xs[i]) >= 2
+		okA[i], okB[i] = good[i], vrt.And(good[i], v9K(xs[i]) >= 2)
 	}
 	yes := v9yes()
 	var called, seenA, seenB, eseen [v9MaxN]bool
@@ -130,15 +132,12 @@ func VForkFMap() {
 		if v9mode() != 0 && v9E(a) {
 			return v9err{a}
 		}
-		k := v9K(a)
-		if k >= 1 {
-			select {
-			case o <- v9G(a, 0):
-			case <-ctx.Done():
-				return nil
-			}
+		select {
+		case o <- v9G(a, 0):
+		case <-ctx.Done():
+			return nil
 		}
-		if k >= 2 {
+		if v9K(a) >= 2 {
 			select {
 			case o <- v9G(a, 1):
 			case <-ctx.Done():
@@ -154,37 +153,28 @@ func VForkFMap() {
 		f = LiftF(arrow)
 	}
 	out, exx := FMap(ctx, par, in, f)
-	if v9take() != 0 {
-		vrt.Go("consumer", func() {
-			for k := 0; k != v9take(); k++ {
-				v, more := <-out
-				if !more {
-					vrt.Cover("fmap.out.drained")
-					break
-				}
-				a0, a1 := v9hit(0, v, &imgA, &okA), v9hit(1, v, &imgA, &okA)
-				a2, a3 := v9hit(2, v, &imgA, &okA), v9hit(3, v, &imgA, &okA)
-				b0, b1 := v9hit(0, v, &imgB, &okB), v9hit(1, v, &imgB, &okB)
-				b2, b3 := v9hit(2, v, &imgB, &okB), v9hit(3, v, &imgB, &okB)
-				vrt.Assert("fmap.out.known", vrt.Any(a0, a1, a2, a3, b0, b1, b2, b3))
-				vrt.Assert("fmap.out.once", vrt.Not(vrt.Any(
-					vrt.And(a0, seenA[0]), vrt.And(a1, seenA[1]), vrt.And(a2, seenA[2]), vrt.And(a3, seenA[3]),
-					vrt.And(b0, seenB[0]), vrt.And(b1, seenB[1]), vrt.And(b2, seenB[2]), vrt.And(b3, seenB[3]))))
-				if v9n() > 0 {
-					seenA[0], seenB[0] = vrt.Or(seenA[0], a0), vrt.Or(seenB[0], b0)
-				}
-				if v9n() > 1 {
-					seenA[1], seenB[1] = vrt.Or(seenA[1], a1), vrt.Or(seenB[1], b1)
-				}
-				if v9n() > 2 {
-					seenA[2], seenB[2] = vrt.Or(seenA[2], a2), vrt.Or(seenB[2], b2)
-				}
-				if v9n() > 3 {
-					seenA[3], seenB[3] = vrt.Or(seenA[3], a3), vrt.Or(seenB[3], b3)
-				}
-			}
-		})
-	}
+	v9consumeWith("consumer", "fmap.out", out, func(v int) {
+		a0, a1 := v9hit(0, v, &imgA, &okA), v9hit(1, v, &imgA, &okA)
+		a2, a3 := v9hit(2, v, &imgA, &okA), v9hit(3, v, &imgA, &okA)
+		b0, b1 := v9hit(0, v, &imgB, &okB), v9hit(1, v, &imgB, &okB)
+		b2, b3 := v9hit(2, v, &imgB, &okB), v9hit(3, v, &imgB, &okB)
+		vrt.Assert("fmap.out.known", vrt.Any(a0, a1, a2, a3, b0, b1, b2, b3))
+		vrt.Assert("fmap.out.once", vrt.Not(vrt.Any(
+			vrt.And(a0, seenA[0]), vrt.And(a1, seenA[1]), vrt.And(a2, seenA[2]), vrt.And(a3, seenA[3]),
+			vrt.And(b0, seenB[0]), vrt.And(b1, seenB[1]), vrt.And(b2, seenB[2]), vrt.And(b3, seenB[3]))))
+		if v9n() > 0 {
+			seenA[0], seenB[0] = vrt.Or(seenA[0], a0), vrt.Or(seenB[0], b0)
+		}
+		if v9n() > 1 {
+			seenA[1], seenB[1] = vrt.Or(seenA[1], a1), vrt.Or(seenB[1], b1)
+		}
+		if v9n() > 2 {
+			seenA[2], seenB[2] = vrt.Or(seenA[2], a2), vrt.Or(seenB[2], b2)
+		}
+		if v9n() > 3 {
+			seenA[3], seenB[3] = vrt.Or(seenA[3], a3), vrt.Or(seenB[3], b3)
+		}
+	})
 	v9consumeErr("fmap.err", exx, &xs, &bad, &eseen)
 	vrt.Final("fmap.closed", func() bool {
 		return !v9quiet(ctx) || (vrt.Closed(out) && vrt.Closed(exx) && vrt.LibExited())
@@ -221,8 +211,9 @@ func v9pred(xs *[v9MaxN]int, called *[v9MaxN]bool, label string) F[int, bool] {
 
 // v9keep: the elements the sequential Filter keeps (left side of Partition)
 func v9keep(xs *[v9MaxN]int) (keep, drop [v9MaxN]bool) {
+	bad, _, _ := v9failing(xs)
 	for i := 0; i < v9n(); i++ {
-		keep[i] = v9P(xs[i]) && !(v9mode() != 0 && v9E(xs[i]))
+		keep[i] = vrt.And(v9P(xs[i]), !bad[i])
 		drop[i] = !keep[i]
 	}
 	return
@@ -286,9 +277,9 @@ func VForkForEach() {
 	}
 	if v9take() != 0 {
 		vrt.Go("consumer", func() {
-			for range dn {
-				vrt.Assert("foreach.no-values", false)
-			}
+			vrt.Pace("consumer")
+			_, more := <-dn
+			vrt.Assert("foreach.no-values", !more)
 			vrt.Cover("foreach.signalled")
 		})
 	}
